@@ -65,21 +65,25 @@ pub fn resolve(
 		}
 		Builtin::Dbg =>
 		{
-			assert_eq!(arguments.len(), 2);
 			let mut arguments = arguments.into_iter();
 			let value = arguments.next().unwrap();
-			let value_source_code_string_literal = arguments.next().unwrap();
-			let arguments = vec![
+			// The source text of the value is not always available.
+			let value_source_code_string_literal = arguments.next();
+			let mut arguments = vec![
 				string_literal("["),
 				file(location),
 				string_literal(":"),
 				line(location),
-				string_literal("] "),
-				value_source_code_string_literal,
-				string_literal(" = "),
-				// TODO value,
-				string_literal("\n"),
+				string_literal("]"),
 			];
+			if let Some(source_code) = value_source_code_string_literal
+			{
+				arguments.push(string_literal(" "));
+				arguments.push(source_code);
+				arguments.push(string_literal(" = "));
+				// TODO value,
+			}
+			arguments.push(string_literal("\n"));
 			let eprint = write(Fd::Stderr, arguments);
 			let statements =
 				vec![Statement::EvaluateAndDiscard { value: eprint }];
